@@ -187,6 +187,71 @@ class Deadline:
 		return f'{self.name}: wall deadline of {self.seconds:.0f} s reached, {self.skipped} generated case(s) skipped' if self.skipped else ''
 
 
+def fork_map(ctx: Any, jobs: Sequence[tuple[str, Any]], max_parallel: int = 4) -> list[Any]:
+	"""Runs the independent jobs `(name, thunk)` in forked children (at most `max_parallel` at a time) and returns their results in
+	order. Every job draws its random choices from its own `ctx.sub_rng(name)`, works in its own temporary projects and returns a
+	picklable value, so the results do not depend on the scheduling. A child that dies without a result is an infrastructure failure
+	(exit 2), never a verdict. `VERIF_NO_FORK=1` runs the jobs one after the other in this process."""
+	import pickle
+	import tempfile
+	if os.environ.get('VERIF_NO_FORK') or not hasattr(os, 'fork') or len(jobs) < 2:
+		return [thunk() for _, thunk in jobs]
+	outdir = ctx.tmpdir('tranp-fork-')
+	results: list[Any] = [None] * len(jobs)
+	running: dict[int, int] = {}
+	todo = list(range(len(jobs)))
+
+	def start(i: int) -> None:
+		sys.stdout.flush()
+		sys.stderr.flush()
+		pid = os.fork()
+		if pid:
+			running[pid] = i
+			return
+		code = 1
+		try:
+			n0 = len(ctx._tmpdirs)
+			t0 = time.time()
+			try:
+				payload = ('ok', jobs[i][1](), round(time.time() - t0, 3))
+			except BaseException as e:  # noqa: BLE001 - carried to the parent, re-raised there
+				import traceback
+				payload = ('error', (type(e).__name__, str(e), traceback.format_exc()), round(time.time() - t0, 3))
+			tmp = os.path.join(outdir, f'{i}.tmp')
+			with open(tmp, 'wb') as f:
+				pickle.dump(payload, f)
+			os.replace(tmp, os.path.join(outdir, f'{i}.pkl'))
+			for d in ctx._tmpdirs[n0:]:
+				shutil.rmtree(d, ignore_errors=True)
+			code = 0
+		finally:
+			sys.stdout.flush()
+			sys.stderr.flush()
+			os._exit(code)
+
+	while todo or running:
+		while todo and len(running) < max_parallel:
+			start(todo.pop(0))
+		pid, _status = os.wait()
+		if pid not in running:
+			continue
+		i = running.pop(pid)
+		path = os.path.join(outdir, f'{i}.pkl')
+		if not os.path.exists(path):
+			raise common.InfraError(f'the child process of job {jobs[i][0]!r} ended without a result (status {_status})')
+		with open(path, 'rb') as f:
+			kind, value, wall = pickle.load(f)
+		ctx.timings[f'job:{jobs[i][0]}'] = wall
+		if kind == 'error':
+			name, msg, tb = value
+			if name == 'InfraError':
+				raise common.InfraError(msg)
+			sys.stderr.write(tb)
+			raise common.InfraError(f'job {jobs[i][0]!r} crashed: {name}: {msg}')
+		results[i] = value
+	return results
+
+
 def budget_notes() -> list[str]:
 	return [f'{n} real run(s) cut by the per-run budget in {w}' for w, n in sorted(BUDGET_HITS.items())]
 
